@@ -2879,6 +2879,24 @@ impl<'data, P: Platform> PreludeLayoutState<'data, P> {
         for (index, def_info) in self.internal_symbols.symbol_definitions.iter().enumerate() {
             let symbol_id = self.symbol_id_range.offset_to_id(index);
             if !resources.symbol_db.is_canonical(symbol_id) {
+                // A symbol that the user forced to be undefined (-u / --undefined) and that some
+                // input defines is a GC root, as it is for GNU ld and lld: load its definition.
+                if def_info.placement == SymbolPlacement::ForceUndefined {
+                    let canonical_id = resources.symbol_db.definition(symbol_id);
+                    let file_id = resources.symbol_db.file_id_for_symbol(canonical_id);
+                    let old_flags = resources
+                        .per_symbol_flags
+                        .get_atomic(canonical_id)
+                        .fetch_or(ValueFlags::DIRECT);
+                    if !old_flags.has_resolution() {
+                        queue.send_work::<A>(
+                            resources,
+                            file_id,
+                            WorkItem::LoadGlobalSymbol(canonical_id),
+                            scope,
+                        );
+                    }
+                }
                 continue;
             }
 
